@@ -15,6 +15,7 @@ disagreement beyond rounding is a property failure of the implementation (ctx.fa
 A pure-Python mirror of the driver protocol (`py_step`) cross-checks the driver on every line and is the
 oracle of the failing-input search when the Lean side does not build.
 """
+import contextlib
 import itertools
 import math
 import struct
@@ -172,10 +173,35 @@ def py_step(line):
         return f"{C.rat_str(q)} {C.rat_str(v + r)} {_bits(val)}"
     if op == "route":
         nl, na, nn = int(ts[1]), int(ts[2]), int(ts[3])
+        mask = ts[4] if len(ts) > 4 else ""
         if nl != na or (nn >= 0 and na != nn):
             return "none"
-        return " ".join(f"{k}:{k}:{k if nn >= 0 else 'N'}" for k in range(nl))
+
+        def ent(k):     # what member k is called with: its own entry of the noise list (a tensor or None) — nothing else
+            if nn < 0:
+                return "N"
+            return "None" if k < len(mask) and mask[k] == "0" else str(k)
+        return " ".join(f"{k}:{k}:{ent(k)}" for k in range(nl))
+    if op == "getters":
+        # specification: every public property getter of the four files is an observation (writes nothing)
+        return " ".join(f"{g}:" for g in source_getters())
     return "bad-request"
+
+
+_C12_MODULES = ("noise_models", "gaussian_likelihood", "multitask_gaussian_likelihood", "likelihood_list")
+
+
+def source_getters():
+    """`Class.name` of every @property of every class defined in the four modules (by introspection of the imported
+    package — independent of the translator's ast scan)."""
+    import importlib
+    out = []
+    for m in _C12_MODULES:
+        mod = importlib.import_module("gpytorch.likelihoods." + m)
+        for cname, cls in vars(mod).items():
+            if isinstance(cls, type) and cls.__module__ == mod.__name__:
+                out += [f"{cname}.{k}" for k, v in vars(cls).items() if isinstance(v, property)]
+    return sorted(set(out))
 
 
 def _same_reply(a, b):
@@ -306,6 +332,16 @@ def _closed(kind, y, m, v, r):
     return -0.5 * (float(q) + math.log(s) + LOG2PI), abs(float(q)) + abs(math.log(s)) + LOG2PI
 
 
+def _check_handed(torch, case, handed, cell):
+    """tensors the caller handed to the likelihood (constructor / setter arguments, call-time noise, distribution, targets)
+    must be bit-for-bit what they were: `handed` = [(label, the tensor object handed in, an independent clone)]."""
+    for label, t, ref in handed:
+        if t.shape != ref.shape or not torch.equal(t, ref):
+            d = float((t - ref).abs().max()) if t.shape == ref.shape else float("nan")
+            case.fail(f"mutates-input:{cell}:{label.split('`')[1] if '`' in label else label}",
+                      f"the {label} handed to the likelihood was modified in place (max |after - before| = {d:.3e})")
+
+
 # ------------------------------------------------------------------ single-output likelihoods
 
 def build_single(cfg):
@@ -323,9 +359,10 @@ def build_single(cfg):
         else:
             learned = cfg["kind"] == "fixed+learned"
             stored = _pos(torch, (*cfg["nb"], cfg["nstored"]), gen)
+            handed = stored.clone()      # the caller's tensor: the likelihood keeps a reference to it, so it must stay intact
             lik = gpytorch.likelihoods.FixedNoiseGaussianLikelihood(
-                noise=stored.clone(), learn_additional_noise=learned, batch_shape=torch.Size(lb)).double()
-            P = {"stored": lik.noise_covar.noise.detach().clone(), "sigma2": None}
+                noise=handed, learn_additional_noise=learned, batch_shape=torch.Size(lb)).double()
+            P = {"stored": stored.clone(), "sigma2": None, "_ctor": [("constructor argument `noise`", handed, stored)]}
             if learned:
                 lik.second_noise = _pos(torch, (*lb, 1), gen)
                 P["sigma2"] = lik.second_noise_covar.noise.detach().clone()
@@ -442,6 +479,7 @@ def run_single(cfg):
                 (call_before is not None and not torch.equal(P["call"], call_before)):
             case.fail(f"mutates-input:{kind}:{var}", "a likelihood call changed the function distribution's covariance or "
                                                      "the call-time noise tensor in place")
+        _check_handed(torch, case, P.get("_ctor", []), f"{kind}:{var}")
     case.l1 = [single_noise_line(cfg, P, oi) for oi in idxs]
 
     def after1(rep1):
@@ -702,10 +740,14 @@ def run_list(cfg):
     while len(args) < na:   # lengths beyond the members re-use the last one
         args = args + [args[-1]]
     kw = {}
+    none_at = sorted(set(cfg.get("none_at", [])))     # positions of the noise list whose entry is `None`
+    handed = [h for P in Ps for h in P.get("_ctor", [])]
     if nn >= 0:
         noises = [P["call"] for P in Ps][:nn]
         while len(noises) < nn:
             noises.append(noises[-1])
+        handed += [(f"call-time `noise[{k}]`", v, v.clone()) for k, v in enumerate(noises) if k not in none_at]
+        noises = [None if k in none_at else v for k, v in enumerate(noises)]
         if container == "tuple":
             noises = tuple(noises)
         elif container == "stacked":
@@ -719,22 +761,42 @@ def run_list(cfg):
             out = ll(*args, **kw) if cfg["method"] == "call" else ll.forward(*args, **kw)
         except Exception as e:
             err = e
-    case.l1 = [f"route {cfg['method']} {nl} {na} {nn}"]
+        # a `None` entry means: the member is called with noise=None.  GaussianLikelihood(…, noise=None) itself raises
+        # (loud); then the list must raise too — counted as rejected by the real code, judged when it does not raise
+        if err is not None and nn >= 0:
+            for k in none_at:
+                if k < nl and k < len(args):
+                    try:
+                        a = args[k] if isinstance(args[k], tuple) else (args[k],)
+                        (liks[k] if cfg["method"] == "call" else liks[k].forward)(*a, noise=None)
+                    except Exception as e2:
+                        if type(e2) is type(err) and str(e2) == str(err):
+                            case.rejected = f"{type(liks[k]).__name__}(…, noise=None) raises {type(e2).__name__}"
+    mask = "".join("0" if k in none_at else "1" for k in range(max(nn, 0)))
+    case.l1 = [f"route {cfg['method']} {nl} {na} {nn}" + (f" {mask}" if none_at else "")]
     obs, offs = [], []
-    for m, P in zip(members, Ps):
+    for k, (m, P) in enumerate(zip(members, Ps)):
         Pk = dict(P)
-        if nn < 0:
+        if nn < 0 or k in none_at:
             Pk["call"] = None
         ob = single_out_batch(m, Pk)
         obs.append(ob)
         offs.append(len(case.l1))
         case.l1 += [single_noise_line(m, Pk, oi) for oi in all_idx(ob)]
+    _check_handed(torch, case, handed, "likelihoodlist")
     tagc = "plain" if nn < 0 else ("noise" if container == "list" else "noise-" + container)
+    if none_at:
+        tagc += "-with-None"
     key = f"likelihoodlist:{cfg['method']}:{tagc}"
     how = {"list": "noise=[...]", "tuple": "noise=(...)", "stacked": "noise=<stacked tensor, row i for member i>"}[container]
+    if none_at:
+        how = "noise=" + ("(" if container == "tuple" else "[") + ", ".join(
+            "None" if k in none_at else f"v{k}" for k in range(nn)) + (")" if container == "tuple" else "]")
 
     def after1(rep1):
         table = rep1[0]
+        if case.rejected:
+            return
         if table == "none":
             if err is None:
                 case.fail(key + ":length-mismatch", f"{nl} members, {na} argument tuples, {nn} noises: the call "
@@ -854,7 +916,7 @@ def _mutate(torch, lik, cfg, target, method, gen):
             lik.noise = new
         else:
             lik.noise_covar.initialize(noise=new)
-        return
+        return new      # the caller's tensor (the likelihood keeps a reference to it)
     if target == "factor":
         owner, leaf, full = lik, "task_noise_covar_factor", "task_noise_covar_factor"
         setter = None
@@ -889,22 +951,90 @@ def _mutate(torch, lik, cfg, target, method, gen):
         raise ValueError(method)
 
 
+def _fingerprint(torch, lik):
+    """every tensor the object holds — parameters, buffers and plain tensor attributes of every submodule — as clones,
+    together with the identity of the tensor object (a re-bound attribute is a change, too)."""
+    fp = {}
+    for path, mod in lik.named_modules():
+        for k, v in list(mod._parameters.items()) + list(mod._buffers.items()):
+            if v is not None:
+                fp[f"{path}.{k}".lstrip(".")] = v.detach().clone()
+        for k, v in vars(mod).items():
+            if torch.is_tensor(v):
+                fp[f"{path}.{k}".lstrip(".")] = v.detach().clone()
+    return fp
+
+
+def _fp_diff(torch, a, b):
+    out = []
+    for k in sorted(set(a) | set(b)):
+        if k not in a or k not in b:
+            out.append(f"{k} ({'appeared' if k in b else 'disappeared'})")
+        elif a[k].shape != b[k].shape:
+            out.append(f"{k} (shape {tuple(a[k].shape)} -> {tuple(b[k].shape)})")
+        elif not torch.equal(a[k], b[k]):
+            out.append(f"{k} (max |after - before| = {float((a[k] - b[k]).abs().max()):.3e})")
+    return out
+
+
+def public_reads(lik):
+    """(submodule path, attribute) of every public property getter of the likelihood and of each of its submodules (noise
+    models, constraints), plus every registered parameter / buffer read as an attribute (`raw_noise`, …)."""
+    out = []
+    for path, mod in lik.named_modules():
+        names = set(mod._parameters) | set(mod._buffers)
+        for k in type(mod).__mro__:
+            names |= {nm for nm, v in vars(k).items() if isinstance(v, property) and not nm.startswith("_")}
+        out += [(path, nm) for nm in sorted(names)]
+    return out
+
+
+def read_names(cfg):
+    """attribute names `public_reads` finds on a likelihood of the kind of `cfg` (a throw-away instance)."""
+    c = dict(cfg, seed=1, lb=[], db=[], nb=[], n=2, nstored=2, call=None)
+    if cfg["kind"] == "mt":
+        c.update(t=2, rank=min(cfg["rank"], 2), il=True)
+        lik = build_mt(c)[0]
+    else:
+        lik = build_single(c)[0]
+    return sorted({nm for _p, nm in public_reads(lik)})
+
+
 def run_hist(cfg):
-    """call -> change a noise parameter -> call again (same shape, then another shape): every call must add the noise
-    operator of the parameters the likelihood holds *at that moment*."""
+    """Histories on ONE likelihood object.  Operations: a *use* (`likelihood(dist)`, `expected_log_prob`, `log_marginal`),
+    a documented *change* of one noise parameter (setter / raw parameter / load_state_dict / initialize), and a *read* of a
+    public attribute (`["read", name, times]`; name `*` = every public property getter and parameter of the likelihood and
+    of its noise models).  Every use must add the noise operator of the parameters as they were left by the constructor /
+    the last documented change (a shadow kept by the harness — NOT re-read from the object); neither a read nor a use may
+    change any tensor the object holds, and the tensors handed in (constructor / setter arguments, call-time noise,
+    distribution) must stay bit-for-bit what they were."""
     import torch
     import gpytorch
     case = Case(cfg)
     kind, mode, lb = cfg["kind"], cfg["mode"], tuple(cfg["lb"])
     is_mt = kind == "mt"
     if is_mt:
-        lik, _P, gen = build_mt(cfg)
+        lik, P0, gen = build_mt(cfg)
     else:
-        lik, _P, gen = build_single(cfg)
+        lik, P0, gen = build_single(cfg)
     lik.train() if mode == "train" else lik.eval()
     db = tuple(cfg["db"])
     t = cfg.get("t", 1)
-    steps = []     # (label, n, cov, C, noise lines, out batch)
+    steps = []     # (label, n, cov, C, noise lines, out batch, closed-form observations)
+    handed = list(P0.get("_ctor", []))
+    shadow = {"P": {k: v for k, v in P0.items() if not k.startswith("_")}}
+    shadow["P"]["call"] = None
+    state = {"fp": _fingerprint(torch, lik)}
+    cellkey = f"{kind}:{mode}"
+
+    def settle(op, lab):
+        """after an observation (use / read): the object must hold exactly the tensors it held before"""
+        cur = _fingerprint(torch, lik)
+        diff = _fp_diff(torch, state["fp"], cur)
+        if diff:
+            case.fail(f"history:{cellkey}:state-changed-by-{op}:{lab}",
+                      f"{op} `{lab}` changed the state of the likelihood: " + "; ".join(diff[:4]))
+        state["fp"] = cur
 
     def call(label, n):
         cfgn = dict(cfg, n=n)
@@ -917,55 +1047,119 @@ def run_hist(cfg):
         else:
             mean = torch.randn(*db, n, generator=gen, dtype=torch.float64)
             dist = gpytorch.distributions.MultivariateNormal(mean, Cm)
-        P = _snap_mt(lik, cfg) if is_mt else _snap_single(lik, kind)
+        y = mean + torch.randn(mean.shape, generator=gen, dtype=torch.float64)
+        P = dict(shadow["P"])
         if not is_mt and kind != "gauss" and n != cfg["nstored"] and not cfg.get("hist_nocall"):
             P["call"] = _pos(torch, (*db, n), gen)      # other event size: call-time noise (else: documented skip of the
             kw["noise"] = P["call"]                      # fixed noise, learned noise still added — `hist_nocall`)
+            handed.append(("call-time `noise`", P["call"], P["call"].clone()))
+        Cref, mref = Cm.clone(), mean.clone()
+        closed = {}
+        lab0 = label.split("|")[0]
         try:
             with warnings.catch_warnings():
                 warnings.simplefilter("ignore")
                 cov = lik(dist, **kw).covariance_matrix.detach()
+                if not is_mt:
+                    zero_r = kind == "fixed" and "noise" not in kw and n != cfg["nstored"]
+                    closed["lm"] = lik.log_marginal(y, dist, **kw).detach()
+                    if not zero_r:
+                        closed["elp"] = lik.expected_log_prob(y, dist, **kw).detach()
         except Exception as e:
             case.fail(f"history-raises:{kind}:{mode}", f"{label}: likelihood(dist) raised {type(e).__name__}: {str(e)[:160]}")
             return
+        if not torch.equal(Cm, Cref) or not torch.equal(mean, mref):
+            case.fail(f"mutates-input:{cellkey}:distribution", f"{label}: the call changed the distribution's mean / covariance in place")
+        settle("use", lab0)
         if is_mt:
             ob = bshape(db, lb)
             lines = [mt_noise_line(cfgn, P, oi, cfg["il"]) for oi in all_idx(ob)]
         else:
             ob = single_out_batch(cfgn, P)
             lines = [single_noise_line(cfgn, P, oi) for oi in all_idx(ob)]
-        steps.append((label, n, cov, Cm, lines, ob))
+        steps.append((label, n, cov, Cm, lines, ob, (closed, mean, y)))
+
+    def read(name, times):
+        targets = [(pth, nm) for pth, nm in public_reads(lik) if name == "*" or nm == name]
+        for _ in range(times):
+            for pth, nm in targets:
+                try:
+                    with warnings.catch_warnings():
+                        warnings.simplefilter("ignore")
+                        with (torch.no_grad() if cfg.get("read_nograd") else contextlib.nullcontext()):
+                            getattr(lik.get_submodule(pth) if pth else lik, nm)
+                except (AttributeError, RuntimeError):
+                    pass     # documented: `task_noises` with rank > 0, `task_noise_covar` with rank 0 raise AttributeError
+                settle("read", (pth + "." if pth else "") + nm)
 
     n, n2 = cfg["n"], cfg["n2"]
-    call("first call", n)
-    for target, method in cfg["ops"]:
+    if not cfg.get("read_first"):
+        call("first call", n)
+    for op in cfg["ops"]:
+        if op[0] == "read":
+            _r, name, times = op
+            read(name, times)
+            lab = f"read:{name}"
+            call(f"{lab}|call after reading `{name}` {times}x ({mode} mode)", n)
+            if cfg.get("read_other_size"):
+                call(f"{lab}|call on another event size ({n2}) after reading `{name}` ({mode} mode)", n2)
+            continue
+        target, method = op
         try:
-            _mutate(torch, lik, cfg, target, method, gen)
+            new = _mutate(torch, lik, cfg, target, method, gen)
         except Exception as e:
             case.fail(f"history-raises:{kind}:{mode}:{target}:{method}",
                       f"changing `{target}` via {method} raised {type(e).__name__}: {str(e)[:160]}")
             break
+        # the documented change defines the new expected parameters (for the fixed noise: the tensor that was handed in)
+        shadow["P"] = _snap_mt(lik, cfg) if is_mt else _snap_single(lik, kind)
+        if new is not None:
+            handed.append((f"`{target}` value handed to the {method}", new, new.clone()))
+            shadow["P"]["stored"] = new.clone()
+        state["fp"] = _fingerprint(torch, lik)
         lab = f"{target}:{method}"
         call(f"{lab}|call on the same shape after changing `{target}` via {method} ({mode} mode)", n)
         call(f"{lab}|call on another event size ({n2}) after changing `{target}` via {method} ({mode} mode)", n2)
         call(f"{lab}|second call on the first shape after changing `{target}` via {method} ({mode} mode)", n)
+    _check_handed(torch, case, handed, cellkey)
     case.l1 = [l for st in steps for l in st[4]]
 
     def after1(rep1):
         lines2, todo = [], []
         p = 0
-        for (label, nn_, cov, Cm, lines, ob) in steps:
+        for (label, nn_, cov, Cm, lines, ob, (closed, mean, y)) in steps:
             oidx = all_idx(ob)
             Rs = [C.parse_mat(r.split())[0] for r in rep1[p:p + len(lines)]]
             p += len(lines)
+            lab0 = label.split("|")[0].replace(" ", "-")
             try:
                 full = bshape(tuple(cov.shape[:-2]), ob)
             except ValueError as e:
-                case.fail(f"history:{kind}:{mode}:{label.split('|')[0]}", f"{label}: covariance batch shape: {e}")
+                case.fail(f"history:{kind}:{mode}:{lab0}", f"{label}: covariance batch shape: {e}")
                 continue
             for oi in all_idx(full):
                 lines2.append(f"marg {C.mat_tokens(Cm[bidx(db, oi)])} {_show(Rs[oidx.index(bidx(ob, oi))])}")
                 todo.append((label, oi, cov[bidx(tuple(cov.shape[:-2]), oi)].tolist()))
+            for short, val in closed.items():
+                try:
+                    full = bshape(tuple(val.shape[:-1]), ob)
+                    if val.shape[-1] != nn_:
+                        raise ValueError(f"shape {tuple(val.shape)}")
+                except ValueError as e:
+                    case.fail(f"history:{kind}:{mode}:{lab0}:{short}", f"{label}: {short} shape: {e}")
+                    continue
+                for oi in all_idx(full):
+                    R = Rs[oidx.index(bidx(ob, oi))]
+                    Ci, mi, yi = Cm[bidx(db, oi)], mean[bidx(db, oi)], y[bidx(db, oi)]
+                    vi = val[bidx(tuple(val.shape[:-1]), oi)]
+                    for e in range(nn_):
+                        if (short == "elp" and R[e][e] == 0) or C.frac(Ci[e, e].item()) + R[e][e] <= 0:
+                            continue
+                        exp, mag = _closed(short, yi[e].item(), mi[e].item(), Ci[e, e].item(), R[e][e])
+                        if not abs(vi[e].item() - exp) <= 1e-11 * (1 + mag):
+                            case.fail(f"history:{kind}:{mode}:{lab0}:{short}",
+                                      f"{label.split('|')[-1]}: {'expected_log_prob' if short == 'elp' else 'log_marginal'}"
+                                      f"[{list(oi)},{e}] = {vi[e].item()!r}, closed form with R(current parameters) {exp!r}")
         case.l2 = lines2
 
         def after2(rep2):
@@ -1133,8 +1327,73 @@ def gen_cfgs(ctx):
                         # a second, random change afterwards
                         tg = hist_targets(c)
                         t2 = rng.choice(sorted(tg))
+                        if rng.random() < 0.5:      # property reads between the changes (observations: must be invisible)
+                            c["ops"].append(["read", "*", 1])
                         c["ops"].append([t2, rng.choice(tg[t2])])
                         cfgs.append(c)
+    # --- property READS as history operations: build -> (use) -> read a public attribute 1..3 times -> use -> change ->
+    #     read -> use, for EVERY public property getter / parameter of every likelihood kind and of its noise models
+    #     (`noise`, `second_noise`, `task_noises`, `task_noise_covar`, `raw_*`, …; `*` = all of them), train and eval
+    def hist_base(base, mode):
+        c = dict(base)
+        n = rng.randint(1, 4)
+        n2 = rng.choice([x for x in (1, 2, 3, 4, 5) if x != n])
+        lb = rng.choice([[], [2]])
+        db = lb if (base["kind"] == "mt" or rng.random() < 0.5) else rng.choice([[], [2]])
+        if base["kind"] == "mt" and not lb:
+            db = rng.choice([[], [2]])
+        nb = rng.choice([[], list(db)]) if base["kind"] != "mt" and base["kind"] != "gauss" else []
+        c.update(fam="hist", mode=mode, n=n, n2=n2, lb=list(lb), db=list(db), nb=nb, nstored=n, call=None, seed=seed())
+        if base["kind"] == "mt":
+            t = rng.randint(2, 3)
+            c.update(t=t, rank=min(base["rank"], t), il=rng.random() < 0.5)
+        return c
+    for _ in range(1 if quick else 5):
+        for base in hk:
+            names = read_names(base)
+            for name in names + ["*", "*"]:
+                c = hist_base(base, rng.choice(["train", "eval"]))
+                tg = hist_targets(c)
+                t2 = rng.choice(sorted(tg))
+                c["ops"] = [["read", name, rng.randint(1, 3)], [t2, rng.choice(tg[t2])], ["read", name, 1]]
+                if rng.random() < 0.3:
+                    c["read_first"] = True          # the very first operation on the fresh object is the read
+                if rng.random() < 0.5:
+                    c["read_nograd"] = True         # reads under torch.no_grad() (logging code) and with autograd on
+                if rng.random() < 0.5:
+                    c["read_other_size"] = True
+                if base["kind"] in ("fixed", "fixed+learned") and rng.random() < 0.5:
+                    c["hist_nocall"] = True
+                cfgs.append(c)
+    # --- LikelihoodList: call-time lists with `None` entries in every position (leading, middle, trailing, all, random
+    #     subsets).  A `None` entry = the member is called with noise=None = its own stored noise; nothing of another
+    #     member's entry may reach it (per-member kwargs independence).
+    for _ in range(1 if quick else 8):
+        for method in ("call", "forward"):
+            for nl in (2, 3, 4):
+                pats = {"leading": [0], "trailing": [nl - 1], "all": list(range(nl)),
+                        "random": sorted(rng.sample(range(nl), rng.randint(1, nl - 1)))}
+                if nl > 2:
+                    pats["middle"] = list(range(1, nl - 1))
+                    pats["ends"] = [0, nl - 1]
+                for pname, none_at in sorted(pats.items()):
+                    common = rng.random() < 0.7          # same event size: a leaked noise is shape compatible
+                    b = rng.choice([[], [], [2]])
+                    n0 = rng.randint(1, 5)
+                    members = []
+                    for k in range(nl):
+                        kind = rng.choice(["fixed", "fixed+learned"] if k in none_at else ["gauss", "fixed", "fixed+learned"])
+                        n = n0 if common else rng.randint(1, 5)
+                        members.append({"fam": "single", "kind": kind, "n": n, "lb": [], "db": list(b), "nb": rng.choice([[], list(b)]),
+                                        "nstored": n, "call": list(b), "seed": seed()})
+                    cfgs.append({"fam": "list", "members": members, "method": method, "nargs": nl, "nnoise": nl,
+                                 "container": rng.choice(["list", "tuple"]), "none_at": none_at, "pattern": pname,
+                                 "seed": seed()})
+            # documented loud rejection: a GaussianLikelihood member called with noise=None raises, so the list raises
+            members = [{"fam": "single", "kind": k, "n": 2, "lb": [], "db": [], "nb": [], "nstored": 2, "call": [], "seed": seed()}
+                       for k in ("fixed", "gauss")]
+            cfgs.append({"fam": "list", "members": members, "method": method, "nargs": 2, "nnoise": 2, "none_at": [1],
+                         "pattern": "gauss-None", "seed": seed()})
     return cfgs
 
 
@@ -1186,13 +1445,19 @@ def _cell(cfg):
     if cfg["fam"] == "hist":
         return f"history:{cfg['kind']}:{cfg['mode']}:{cfg['ops'][0][0]}:{cfg['ops'][0][1]}"
     cont = "plain" if cfg["nnoise"] < 0 else cfg.get("container", "list")
+    if cfg.get("none_at"):
+        cont += "+None:" + cfg.get("pattern", "")
     mb = cfg["members"][0]["db"]
     return f"list:{cfg['method']}:{cont}:{'batch' + ('=k' if mb and mb[0] == len(cfg['members']) else '') if mb else 'nobatch'}"
 
 
 def correspondence(ctx, use_driver=True):
     cfgs = gen_cfgs(ctx)
-    cases = run_cases(ctx, cfgs, Oracle(ctx, use_driver))
+    oracle = Oracle(ctx, use_driver)
+    # the regenerated table of property getters (translator: ast scan) vs the properties found by introspection of the
+    # imported package, all of them observations (no writes)
+    ctx.notes["property_getters"] = oracle(["getters"])[0].split()
+    cases = run_cases(ctx, cfgs, oracle)
     cells, sizes = {}, {}
     for c in cases:
         cfg = c.cfg
